@@ -39,6 +39,14 @@ type Ctx struct {
 	RuleCount  map[string]int
 	RuleDesc   map[string]string
 	seenFind   map[string]bool
+	Extra      map[string]interface{}
+}
+
+func (c *Ctx) extra(k string, v interface{}) {
+	if c.Extra == nil {
+		c.Extra = map[string]interface{}{}
+	}
+	c.Extra[k] = v
 }
 
 func NewCtx(p *Prog, prop string) *Ctx {
@@ -200,6 +208,9 @@ func (c *Ctx) finish(verifDir, tier string, seed int, t0 time.Time, extra map[st
 		"trusted_base":           []string{"go/types, go/ssa (x/tools v0.29.0)", "rule tables in /verif/checker/rules_" + strings.ToLower(c.Property) + ".go"},
 	}
 	for k, v := range extra {
+		cov[k] = v
+	}
+	for k, v := range c.Extra {
 		cov[k] = v
 	}
 	ev := Evidence{c.Property, tier, seed, "other", cov, assumptions, time.Since(t0).Seconds(), len(viol)}
